@@ -137,6 +137,12 @@ fn header_obs(h: &UnitHeader<R>) -> Value {
         "section": if h.section() == gimli::SectionId::DebugTypes {"types"} else {"info"},
         "kind": kind, "sig": sig, "type_offset": toff, "dwo_id": dwo,
         "size_of_header": h.size_of_header(), "header_size": h.header_size(), "root_offset": h.root_offset().0,
+        "unit_info_offset": h.debug_info_offset().map(|o| o.0 as i64).unwrap_or(-1),
+        "unit_types_offset": h.debug_types_offset().map(|o| o.0 as i64).unwrap_or(-1),
+        "root_section_offset": h.root_offset().to_unit_section_offset(h).0,
+        "root_info_offset": h.root_offset().to_debug_info_offset(h).map(|o| o.0 as i64).unwrap_or(-1),
+        "root_types_offset": h.root_offset().to_debug_types_offset(h).map(|o| o.0 as i64).unwrap_or(-1),
+        "root_back": h.root_offset().to_unit_section_offset(h).to_unit_offset(h).map(|o| o.0 as i64).unwrap_or(-1),
         "encoding": {"version": h.encoding().version, "address_size": h.encoding().address_size,
                      "format": if h.encoding().format == gimli::Format::Dwarf64 {64} else {32}},
     })
@@ -370,6 +376,15 @@ fn replay_stream(case: &Value) -> Value {
     };
     let mut out = serde_json::Map::new();
     out.insert("hdr".into(), header_obs(&h));
+    // the section offset of every unit of the section
+    let mut offs = Vec::new();
+    for k in 0..64 {
+        match nth_unit(&info, en, types, k) {
+            Ok(u) => offs.push(u.offset().0),
+            Err(_) => break,
+        }
+    }
+    out.insert("alloffs".into(), json!(offs));
     // the same unit through header_from_offset (.debug_info only)
     if !types {
         if let Some(o) = h.debug_info_offset() {
